@@ -62,7 +62,16 @@ PartialDef(e) == "partial" \notin DOMAIN e.obs.x => \A a \in 1..N : \A b \in 1..
    /\ e.obs.partial[a][b] >= -5
    /\ Abs(r3 * r3 - PartialSq6(CovMat(e), a, b)) <= 2 * Abs(r3) * 2 + 2500
    /\ Close(e.obs.partial[a][b], e.obs.partial[b][a], 5)
+\* binned mutual information of MutualInfoClimateNetwork: symmetric, the same for the same pair of series
+\* whatever their position in the data set (reordered data), equal series have equal scores, non-negative
+MIRelations(e) == ("mi" \notin DOMAIN e.obs.x /\ "mi_perm" \notin DOMAIN e.obs.x) =>
+   /\ \A a \in 1..N : \A b \in 1..N : Close(e.obs.mi[a][b], e.obs.mi[b][a], Tol)
+   /\ \A a \in 1..N : \A b \in 1..N : Close(e.obs.mi_perm[a][b], e.obs.mi[Perm[a]][Perm[b]], Tol)
+   /\ \A a \in 1..N : \A b \in 1..N : \A c \in 1..N :
+         (a # b /\ c # a /\ c # b /\ Col(e, a) = Col(e, b)) => Close(e.obs.mi[a][c], e.obs.mi[b][c], Tol)
+   /\ \A a \in 1..N : \A b \in 1..N : IsNum(e.obs.mi[a][b]) => e.obs.mi[a][b] >= -Tol
 Checks(e) == <<
+  <<"Relations|MutualInfoClimateNetwork.similarity_measure", MIRelations(e)>>,
   <<"PartialCorrDef|PartialCorrelationClimateNetwork.similarity_measure", PartialDef(e)>>,
   <<"MeanProductDef|Surrogates.test_pearson_correlation", TestPearsonDef(e)>>,
   <<"BinnedMIDef|Surrogates.test_mutual_information(2)", TestMIDef(e, "tmi2", 2)>>,
@@ -83,7 +92,9 @@ GaussUndefined(e) == \E a \in 1..N : \E b \in 1..N : \E L \in 0..e.taumax :
    a # b /\ (Var(x) = 0 \/ Var(y) = 0 \/ Var(x) * Var(y) = Cov(x, y) * Cov(x, y))
 Verdict(e) ==
   \* (with a constant series the correlation matrix has no inverse: the partial correlation is undefined)
-  IF DOMAIN e.obs.x \ ((IF GaussUndefined(e) THEN {"gauss"} ELSE {}) \cup (IF Constant(e) THEN {"partial"} ELSE {})) # {} THEN <<"REJECT", "Applicable", JoinSet({k \o ":" \o e.obs.x[k] : k \in DOMAIN e.obs.x}), Tags(e)>>
+  IF DOMAIN e.obs.x \ ((IF GaussUndefined(e) THEN {"gauss"} ELSE {}) \cup (IF Constant(e) THEN {"partial"} ELSE {})
+                     \* (all series constant: no common range to bin)
+                     \cup (IF \A j \in 1..N : Var(Col(e, j)) = 0 THEN {"mi", "mi_perm"} ELSE {})) # {} THEN <<"REJECT", "Applicable", JoinSet({k \o ":" \o e.obs.x[k] : k \in DOMAIN e.obs.x}), Tags(e)>>
   ELSE LET f == FailsOf(Checks(e), "") IN
        IF f = {} THEN <<"ACCEPT", "", "", Tags(e)>> ELSE <<"REJECT", "Multi", JoinSet(f), Tags(e)>>
 Verdicts == TLCEval([k \in 1..Len(Trace) |-> Verdict(Trace[k])])
